@@ -170,11 +170,54 @@ pub fn viol(prop: &str, class: &str, detail: String, step: usize) -> Violation {
 }
 
 pub fn fs_options(cfg: &RunCfg, clock: &SimClock) -> fatfs::FsOptions<SimClock, SimOcc> {
-    fatfs::FsOptions::new()
-        .time_provider(clock.clone())
-        .oem_cp_converter(SimOcc(cfg.oem))
-        .update_accessed_date(cfg.access_date)
-        .strict(cfg.strict)
+    // The options builder is part of the API: the order of the builder calls and whether defaults are spelled out is a
+    // per-run knob (a builder that forgets to carry a field over would otherwise stay invisible).
+    let (c, o, a, st) = (clock.clone(), SimOcc(cfg.oem), cfg.access_date, cfg.strict);
+    let spell_defaults = (cfg.dev_seed >> 8) & 1 == 1;
+    let base = fatfs::FsOptions::new();
+    let upd = |x: fatfs::FsOptions<fatfs::DefaultTimeProvider, fatfs::LossyOemCpConverter>| if a || spell_defaults { x.update_accessed_date(a) } else { x };
+    let stx = |x: fatfs::FsOptions<fatfs::DefaultTimeProvider, fatfs::LossyOemCpConverter>| if !st || spell_defaults { x.strict(st) } else { x };
+    match cfg.dev_seed % 6 {
+        0 => {
+            let x = base.time_provider(c).oem_cp_converter(o);
+            let x = if a || spell_defaults { x.update_accessed_date(a) } else { x };
+            if !st || spell_defaults {
+                x.strict(st)
+            } else {
+                x
+            }
+        }
+        1 => stx(upd(base)).time_provider(c).oem_cp_converter(o),
+        2 => {
+            let x = base.oem_cp_converter(o);
+            let x = if a || spell_defaults { x.update_accessed_date(a) } else { x };
+            let x = x.time_provider(c);
+            if !st || spell_defaults {
+                x.strict(st)
+            } else {
+                x
+            }
+        }
+        3 => {
+            let x = stx(base).oem_cp_converter(o).time_provider(c);
+            if a || spell_defaults {
+                x.update_accessed_date(a)
+            } else {
+                x
+            }
+        }
+        4 => {
+            let x = upd(base).oem_cp_converter(o);
+            let x = if !st || spell_defaults { x.strict(st) } else { x };
+            x.time_provider(c)
+        }
+        _ => {
+            let x = base.time_provider(c);
+            let x = if a || spell_defaults { x.update_accessed_date(a) } else { x };
+            let x = if !st || spell_defaults { x.strict(st) } else { x };
+            x.oem_cp_converter(o)
+        }
+    }
 }
 
 /// payload produced by `guarded`
